@@ -17,7 +17,23 @@ compatible state / autoload (no write to the file in between) gives torch.equal 
 unitary dictionary key by key; save leaves the metadata object (identity and deep content) and the state's
 parameters untouched; torch.load of the file holds every metadata key/value, every network's state dict and
 unitary_dict; reserved names are refused (any exception) and write nothing; a second save with the same objects succeeds
-and writes an equal record; torch.save/load round-trips random tensors bit-identically (trust check)."""
+and writes an equal record; torch.save/load round-trips random tensors bit-identically (trust check).
+
+Regimes added after red-team round 2: several states of a history are built from ONE dictionary object handed to the
+constructors (they share the unitary tensors) and every save / load / autoload is bracketed by "no other state and no
+dictionary the caller passed to a constructor changed"; unitaries and metadata are also edited IN PLACE below the top
+level (`ud[name].copy_(u)`, `ud[name][0, 0, 1] = x`, `md["cfg"]["lr"] = x`, `md["t"].add_(1)`, `.append`) between two
+saves — with long-lived ModelSaver objects; metadata FUNCTIONS use their arguments (`{**md, "epoch": epoch, "nv":
+nn_state.num_visible}`), so the file written at epoch e must hold the metadata of epoch e.
+
+Seed round 3 (C11c): metadata is NESTED 2-3 levels deep (dicts / lists / tuples inside the metadata dict) and holds
+tensors with requires_grad=True, non-leaf tensors (attached to an autograd graph), Python numbers / strings / None; "save
+leaves the metadata object unchanged" compares an identity-aware deep FINGERPRINT taken before the save (for every
+nested container: type, identity, children; for every tensor: identity, dtype, shape, requires_grad, has-grad_fn, bytes;
+for other values: type and repr) — so a save that rewrites the caller's nested containers in place, swaps a tensor for a
+detached copy or changes the type of a value is a failing input; what is read back from the file must be value-equal.
+NumPy values inside metadata are generated in fixed cases but reported as information only (`info:` keys): the
+installed torch.load refuses them, so they are outside "values loadable by the installed torch"."""
 import os, io, copy, time, pathlib
 import numpy as np
 
@@ -31,7 +47,15 @@ RULE = ("histories of <= 12 (quick) / <= 25 (thorough) operations from a weighte
         "dictionary, followed by a successful load/autoload of that file")
 ASSUMPTIONS = ["torch.save/torch.load round-trip tensors and plain containers bit-identically (observed on random tensors in every run)",
                "metadata keys are strings (data.update(**metadata) requires it); random histories put no dict of tensors under a reserved name (the fixed refusal cases do)",
-               "states of one history do not share network objects (sharing is C20's subject)"]
+               "states of one history do not share network objects (sharing is C20's subject)",
+               "OUT OF SCOPE (red-team 2, C11_1): only the three library state types are saved; a user SUBCLASS that overrides "
+               "`networks` to add a third network is outside the quantifier (\"three state types\") and is not generated",
+               "NumPy scalars / arrays inside metadata are not loadable by the installed torch.load (weights_only unpickler), hence outside "
+               "the quantifier: what save does with them (purity included) is recorded as information, never a verdict",
+               "read-back metadata is compared by value (dtype, shape, content); whether the requires_grad flag of a stored tensor survives "
+               "the file is not demanded",
+               "the epoch number a metadata function receives for the 'initial' file of ModelSaver(save_initial=True) is not "
+               "prescribed by the property: the check takes it from the call itself; for periodic files it must be the epoch"]
 
 KEYS = {"rbm_am": 0, "rbm_ph": 1, "unitary_dict": 2, "weights": 10, "visible_bias": 11, "hidden_bias": 12,
         "weights_W": 13, "weights_U": 14, "aux_bias": 15, "X": 20, "Y": 21, "Z": 22}
@@ -106,6 +130,8 @@ class Real:
         self.mds = {}         # mid -> dict object
         self.paths = {}       # fid -> path
         self.file_cache = {}  # fid -> normalised content (None if absent)
+        self.caller_uds = []  # dictionary objects the caller handed to constructors (unitary_dict=...)
+        self.next_mid = 10    # metadata dicts produced by metadata functions are registered from here on
 
     def path(self, fid):
         # fid 9 is the file ModelSaver(save_initial=True) writes at on_train_start
@@ -132,6 +158,17 @@ class Real:
             u = s.unitary_dict
             ud = (1, sorted((self.T.key(k), self.T.tok(v)) for k, v in u.items())) if isinstance(u, dict) else (2, self.T.tok(u))
         return (KIND[type(s).__name__], nets, ud)
+
+    def bystanders(self, sid):
+        """Content of everything an operation on state `sid` has to leave alone: the OTHER states, and the dictionaries
+        the caller passed to constructors."""
+        return ({i: self.norm_state(x) for i, x in self.states.items() if i != sid},
+                [sorted((str(k), self.T.tok(v)) for k, v in d.items()) for d in self.caller_uds])
+
+    def sharers(self, sid, t):
+        """Other states whose dictionary holds the very tensor object t."""
+        return [i for i, x in self.states.items() if i != sid and isinstance(getattr(x, "unitary_dict", None), dict)
+                and any(v is t for v in x.unitary_dict.values())]
 
     def norm_file(self, fid):
         import torch
@@ -200,21 +237,34 @@ def rand_unitary(ctx):
     return torch.tensor(np.stack([q.real, q.imag]), dtype=torch.double)
 
 
-def randomise_inplace(ctx, s, scale=1.0):
+def randomise_inplace(ctx, s, scale=1.0, mode=0):
+    """mode 0: p.data.copy_(new) | 1: p.data = new | 2: p.copy_(new) under no_grad  (the parameter objects keep their identity)"""
     import torch
     for net in s.networks:
         for _, p in getattr(s, net).named_parameters():
             x = ctx.rng.normal(size=tuple(p.shape)) * scale
             x[np.abs(x) < 1e-3] = 0.37
-            p.data.copy_(torch.tensor(x, dtype=torch.double).reshape(p.shape))
+            new = torch.tensor(x, dtype=torch.double).reshape(p.shape)
+            if mode == 1:
+                p.data = new
+            elif mode == 2:
+                with torch.no_grad():
+                    p.copy_(new)
+            else:
+                p.data.copy_(new)
 
 
-def make_state(ctx, kind, nv, nh, na):
+def make_state(ctx, kind, nv, nh, na, shared=None, R=None):
+    """shared: a dictionary object of the caller; with probability 0.4 the state is built from THAT object (so that
+    several states of the history hold the same unitary tensors)."""
     from qucumber.nn_states import PositiveWaveFunction, ComplexWaveFunction, DensityMatrix
     from qucumber.utils import unitaries
     ud = None
     r = ctx.rng.random()
-    if kind != 0 and r < 0.6:
+    if kind != 0 and shared is not None and ctx.rng.random() < 0.4:
+        ud = shared
+        ctx.count("state built from the history's shared dictionary object")
+    elif kind != 0 and r < 0.6:
         ud = unitaries.create_dict()
         if r < 0.3:
             ud["H%d" % ctx.rng.integers(0, 3)] = rand_unitary(ctx)       # user-added unitary
@@ -226,6 +276,8 @@ def make_state(ctx, kind, nv, nh, na):
         s = ComplexWaveFunction(nv, nh, unitary_dict=ud, gpu=False)
     else:
         s = DensityMatrix(nv, nh, na, unitary_dict=ud, gpu=False)
+    if ud is not None and R is not None and not any(ud is d for d in R.caller_uds):
+        R.caller_uds.append(ud)
     randomise_inplace(ctx, s)
     return s
 
@@ -246,9 +298,11 @@ def md_value(ctx, reserved=False):
         return "note-%d" % ctx.rng.integers(0, 9)
     if r < 0.75:
         return {"lr": float(ctx.rng.integers(1, 9)) / 8, "sched": [1, 2, int(ctx.rng.integers(0, 5))], "inner": {"k": "v"}, "none": None}
-    if r < 0.9:
+    if r < 0.85:
         return torch.tensor(ctx.rng.normal(size=(2, 3)))
-    return [1.5, "x", None, torch.tensor([1.0, float(ctx.rng.integers(0, 4))])]
+    if r < 0.93:
+        return live_metadata(ctx.rng, depth3=bool(ctx.rng.integers(0, 2)))      # tensors with requires_grad / non-leaf, 2-3 levels deep
+    return [1.5, "x", None, torch.tensor([1.0, float(ctx.rng.integers(0, 4))]), {"g": torch.tensor([0.5], requires_grad=True)}]
 
 
 def snapshot(s):
@@ -256,6 +310,75 @@ def snapshot(s):
     return {"cls": type(s).__name__,
             "nets": {n: [(k, p.data.clone()) for k, p in getattr(s, n).named_parameters()] for n in s.networks},
             "ud": ({k: v.clone() for k, v in s.unitary_dict.items()} if hasattr(s, "unitary_dict") and isinstance(s.unitary_dict, dict) else None)}
+
+
+def fingerprint(obj):
+    """Identity-aware deep description of a (metadata) object: what `save` must leave exactly as it was."""
+    import torch
+    if isinstance(obj, torch.Tensor):
+        return ("tensor", id(obj), str(obj.dtype), tuple(obj.shape), bool(obj.requires_grad), obj.grad_fn is not None,
+                obj.detach().contiguous().numpy().tobytes())
+    if isinstance(obj, np.ndarray):
+        return ("ndarray", id(obj), str(obj.dtype), obj.shape, obj.tobytes())
+    if isinstance(obj, dict):
+        return ("dict", id(obj), [(repr(k), fingerprint(v)) for k, v in obj.items()])
+    if isinstance(obj, (list, tuple)):
+        return (type(obj).__name__, id(obj), [fingerprint(v) for v in obj])
+    return (type(obj).__name__, None, repr(obj))
+
+
+def describe_change(before, after, path="metadata"):
+    """First difference between two fingerprints, in words (None if equal)."""
+    if before == after:
+        return None
+    if before[0] != after[0]:
+        return "%s: type %s -> %s" % (path, before[0], after[0])
+    if before[0] == "dict":
+        if [k for k, _ in before[2]] != [k for k, _ in after[2]]:
+            return "%s: keys %s -> %s" % (path, [k for k, _ in before[2]], [k for k, _ in after[2]])
+        for (k, b), (_, a) in zip(before[2], after[2]):
+            d = describe_change(b, a, "%s[%s]" % (path, k))
+            if d:
+                return d
+    elif before[0] in ("list", "tuple"):
+        if len(before[2]) != len(after[2]):
+            return "%s: length %d -> %d" % (path, len(before[2]), len(after[2]))
+        for i, (b, a) in enumerate(zip(before[2], after[2])):
+            d = describe_change(b, a, "%s[%d]" % (path, i))
+            if d:
+                return d
+    if before[0] == "tensor":
+        return ("%s: tensor replaced / changed (same object: %s, dtype %s -> %s, requires_grad %s -> %s, attached to a graph %s -> %s, same content: %s)"
+                % (path, before[1] == after[1], before[2], after[2], before[4], after[4], before[5], after[5], before[6] == after[6]))
+    if before[0] in ("dict", "list", "tuple"):
+        return "%s: the %s was replaced by another object" % (path, before[0])
+    return "%s: %s %s -> %s" % (path, before[0], str(before[2])[:60], str(after[2])[:60])
+
+
+def value_copy(obj):
+    """Independent copy BY VALUE (copy.deepcopy refuses non-leaf tensors): tensors are detached clones."""
+    import torch
+    if isinstance(obj, torch.Tensor):
+        return obj.detach().clone()
+    if isinstance(obj, dict):
+        return {k: value_copy(v) for k, v in obj.items()}
+    if isinstance(obj, list):
+        return [value_copy(v) for v in obj]
+    if isinstance(obj, tuple):
+        return tuple(value_copy(v) for v in obj)
+    return copy.deepcopy(obj)
+
+
+def live_metadata(rng, depth3=True):
+    """Nested metadata a training script keeps: a learnable tensor (requires_grad), the differentiable loss computed
+    from it (non-leaf), derived values in lists / tuples / dicts 2-3 levels deep, Python numbers / strings / None."""
+    import torch
+    beta = torch.tensor(rng.normal(size=2) + 0.5, dtype=torch.double, requires_grad=True)
+    loss = (beta ** 2).sum()
+    run = {"beta": beta, "loss": loss, "trace": [loss * 2.0, 3, "s", None], "pair": (1.5, beta.detach() * 3.0)}
+    if depth3:
+        run["opt"] = {"name": "SGD", "groups": [{"lr": 0.01, "w": torch.tensor([float(rng.integers(0, 5)), 1.0], requires_grad=True)}]}
+    return run
 
 
 def deep_eq(a, b):
@@ -314,13 +437,16 @@ def one_history(ctx, hid, nops):
         shapes.append((nv, nh, na))
     nstates = int(rng.integers(4, 7))
     desc_states = []
+    from qucumber.utils import unitaries as _unitaries
+    shared_ud = _unitaries.create_dict()              # ONE dictionary object of the caller, handed to several constructors
+    shared_ud["H%d" % rng.integers(0, 3)] = rand_unitary(ctx)
     for sid in range(nstates):
         kind = int(rng.integers(0, 3)) if sid >= 3 else sid
         nv, nh, na = shapes[int(rng.integers(0, 2))]
-        R.reg_state(sid, make_state(ctx, kind, nv, nh, na))
+        R.reg_state(sid, make_state(ctx, kind, nv, nh, na, shared_ud, R))
         desc_states.append([kind, nv, nh, na])
     R.mds = {0: {}, 1: {"a": 1, "note": "run-%d" % hid},
-             2: {"cfg": {"lr": 0.25, "layers": [2, 3]}, "t": torch.tensor(rng.normal(size=(2, 2)))}}
+             2: {"cfg": {"lr": 0.25, "layers": [2, 3], "live": live_metadata(rng, depth3=False)}, "t": torch.tensor(rng.normal(size=(2, 2)))}}
     next_sid = nstates
     # one LONG-LIVED ModelSaver per metadata object, constructed before any MutateMd of the history: the file must
     # hold the dict as it is at SAVE time, not as it was when the saver was constructed
@@ -343,6 +469,25 @@ def one_history(ctx, hid, nops):
         if malformed and exc is not None:
             ctx.count("resync_after_failed_load")
             segments.append([wire_heap(h, R.next_nid), [], []])
+
+    def resync():
+        """Restart the model from the real heap (after something the Store model has no operation for)."""
+        segments.append([wire_heap(R.norm(), R.next_nid), [], []])
+
+    def meta_fn(md_, seen):
+        """A metadata FUNCTION (nn_state, epoch) -> dict that uses both arguments."""
+        def f(nn, ep_):
+            seen.append(ep_)
+            return {**md_, "epoch": ep_, "nv": int(nn.num_visible)}
+        return f
+
+    def register_md(d):
+        """The dict a metadata function is expected to have produced becomes a metadata object of the heap."""
+        mid_ = R.next_mid
+        R.next_mid += 1
+        R.mds[mid_] = value_copy(d)                     # the harness's own record: shares nothing with the caller's dict
+        resync()
+        return mid_
     saved = {}           # fid -> (snapshot, metadata deep copy) of the last ACCEPTED full save
     nontrivial = False
     md_keys = ["a", "b", "cfg", "t", "rbm_am", "rbm_ph", "unitary_dict"]
@@ -394,7 +539,9 @@ def one_history(ctx, hid, nops):
             kind_s = KIND[type(s).__name__]
             reserved_s = set(s.networks) | ({"unitary_dict"} if hasattr(s, "unitary_dict") else set())
             if sub < 0.5:
-                randomise_inplace(ctx, s, scale=float(rng.choice([0.5, 2.0])))
+                wmode = int(rng.integers(0, 3))
+                randomise_inplace(ctx, s, scale=float(rng.choice([0.5, 2.0])), mode=wmode)
+                ctx.count("train stand-in:" + ["p.data.copy_(new)", "p.data = new", "p.copy_(new) under no_grad"][wmode])
                 op = [1, sid, [[t for _, _, t in R.net_params(getattr(s, n))] for n in s.networks]]
                 label = "train(%d)" % sid
             else:
@@ -415,12 +562,16 @@ def one_history(ctx, hid, nops):
                 else:
                     from qucumber.callbacks import CallbackBase
                     mdarg = [] if mid is None else [mid]
-                    if md is None or rng.random() < 0.7:
+                    fn_seen = None
+                    if md is None or rng.random() < 0.6:
                         ms = savers[mid]                    # constructed at the start of the history
-                    else:
+                    else:                                   # a metadata function that uses (nn_state, epoch)
+                        fn_seen = []
                         ms = ModelSaver(period=1, folder_path=ctx.scratch, file_name="f{}", save_initial=True,
-                                        metadata=(lambda nn, e_, _m=md: _m))
-                    md_before = copy.deepcopy(md)
+                                        metadata=meta_fn(md, fn_seen))
+                        ctx.count("fit_with_ModelSaver:metadata function of (nn_state, epoch)")
+                    md_before = value_copy(md)
+                    expected_md = {}                        # what each written file must hold, by file id
                     flag = bool(md) or hasattr(s, "unitary_dict")
 
                     class Pre(CallbackBase):                 # runs BEFORE the saver: the heap after training, before the save
@@ -434,19 +585,29 @@ def one_history(ctx, hid, nops):
 
                     class Post(CallbackBase):                # runs AFTER the saver
                         def on_train_start(self_, nn):
-                            emit([3, sid, 9, mdarg], "ModelSaver-initial(%d,finitial,md%s)" % (sid, mid), None, [9])
-                            saved[9] = (snapshot(s), copy.deepcopy(md), (sid, mid), step, flag)
+                            a_ = mdarg
+                            if fn_seen is not None:          # epoch of the initial file: whatever the function was given
+                                expected_md[9] = {**md, "epoch": (fn_seen[-1] if fn_seen else None), "nv": int(s.num_visible)}
+                                a_ = [register_md(expected_md[9])]
+                            emit([3, sid, 9, a_], "ModelSaver-initial(%d,finitial,md%s)" % (sid, mid), None, [9])
+                            saved[9] = (snapshot(s), value_copy(md), (sid, mid), step, flag)
 
                         def on_epoch_end(self_, nn, e_):
-                            emit([3, sid, ep, mdarg], "ModelSaver-in-fit(%d,f%d,md%s)" % (sid, ep, mid), None, [ep])
-                            saved[ep] = (snapshot(s), copy.deepcopy(md), (sid, mid), step, flag)
+                            a_ = mdarg
+                            if fn_seen is not None:          # periodic file: the metadata of THIS epoch
+                                expected_md[ep] = {**md, "epoch": ep, "nv": int(s.num_visible)}
+                                a_ = [register_md(expected_md[ep])]
+                            emit([3, sid, ep, a_], "ModelSaver-in-fit(%d,f%d,md%s)" % (sid, ep, mid), None, [ep])
+                            saved[ep] = (snapshot(s), value_copy(md), (sid, mid), step, flag)
                     okf, _ = ctx.call("fit with a ModelSaver callback", ocase,
                                       lambda: s.fit(data, epochs=ep, starting_epoch=ep, callbacks=[Pre(), ms, Post()], **kw))
                     if okf and md is not None:
                         dlast = torch.load(R.path(ep))
-                        ctx.require("ModelSaver inside fit stores the caller's metadata as it is at save time",
-                                    all(k_ in dlast and deep_eq(dlast[k_], v_) for k_, v_ in md.items()), ocase,
-                                    {"metadata": repr(md)[:200], "file keys": list(dlast.keys())})
+                        want_md = expected_md.get(ep, md)
+                        ctx.require("ModelSaver inside fit stores the caller's metadata as it is at save time"
+                                    + (" (metadata function: the metadata of that epoch)" if fn_seen is not None else ""),
+                                    all(k_ in dlast and deep_eq(dlast[k_], v_) for k_, v_ in want_md.items()), ocase,
+                                    {"metadata": repr(want_md)[:200], "file": repr({k_: dlast[k_] for k_ in dlast if k_ in want_md})[:200]})
                     ctx.count("fit_with_ModelSaver")
                     op = None                                # everything was emitted from inside the callbacks
                     if not okf:
@@ -456,25 +617,49 @@ def one_history(ctx, hid, nops):
             if rng.random() < 0.4 and hasattr(s, "unitary_dict") and isinstance(s.unitary_dict, dict) and s.unitary_dict:
                 name = str(rng.choice(sorted(s.unitary_dict.keys())))     # override an existing unitary
             u = rand_unitary(ctx)
-            try:
-                s.unitary_dict[name] = u
-            except Exception as e:
-                exc = e
-            op = [2, sid, T.key(name), T.tok(u)]
-            label = "add_unitary(%d,%s)" % (sid, name)
+            has_d = hasattr(s, "unitary_dict") and isinstance(s.unitary_dict, dict) and bool(s.unitary_dict)
+            if has_d and rng.random() < 0.4:                # an existing unitary is edited IN PLACE (same tensor object)
+                name = str(rng.choice(sorted(s.unitary_dict.keys())))
+                t_ = s.unitary_dict[name]
+                if rng.random() < 0.5:
+                    t_.copy_(u)
+                else:
+                    t_[:, [0, 1]] = t_[:, [1, 0]]           # index assignment: the two rows swapped (still unitary)
+                ctx.count("unitary edited in place")
+                if R.sharers(sid, t_):                      # the tensor also sits in other states' dictionaries: they all change
+                    ctx.count("unitary edited in place: tensor shared with other states")
+                    case["ops"].append("edit_unitary_inplace(%d,%s) [shared tensor]" % (sid, name))
+                    resync()
+                    op = None
+                else:
+                    op = [2, sid, T.key(name), T.tok(t_)]
+                    label = "edit_unitary_inplace(%d,%s)" % (sid, name)
+            else:
+                try:
+                    s.unitary_dict[name] = u
+                except Exception as e:
+                    exc = e
+                op = [2, sid, T.key(name), T.tok(u)]
+                label = "add_unitary(%d,%s)" % (sid, name)
         elif r < 0.58:                                      # save (direct or through ModelSaver)
             before_params = snapshot(s)
-            md_before = copy.deepcopy(md)
+            md_before = value_copy(md)
+            fp_before = fingerprint(md)
             file_before = R.file_cache.get(fid)
+            others_before = R.bystanders(sid)
             via = "save"
+            md_eff, mid_eff = md, mid                       # what the file has to hold / the heap object the model saves
             try:
                 if rng.random() < 0.35:
                     via = "ModelSaver"
-                    if rng.random() < 0.7 or md is None:
+                    if rng.random() < 0.6 or md is None:
                         ms = savers[mid]                    # long-lived: built before the MutateMd steps of this history
-                    else:
+                    else:                                   # a metadata function that uses (nn_state, epoch)
+                        via = "ModelSaver[metadata function]"
                         ms = ModelSaver(period=1, folder_path=ctx.scratch, file_name="f{}", save_initial=False,
-                                        metadata=(lambda nn, ep, _m=md: _m))
+                                        metadata=meta_fn(md, []))
+                        md_eff = {**md, "epoch": fid, "nv": int(s.num_visible)}
+                        mid_eff = register_md(md_eff)
                     ms.on_epoch_end(s, fid)
                 else:
                     form = str(rng.choice(["str", "Path", "file"], p=[0.6, 0.2, 0.2]))
@@ -491,13 +676,17 @@ def one_history(ctx, hid, nops):
             except Exception as e:
                 exc = e
             touched = [fid]
-            op = [3, sid, fid, [] if mid is None else [mid]]
+            op = [3, sid, fid, [] if mid_eff is None else [mid_eff]]
             label = "%s(%d,f%d,md%s)" % (via, sid, fid, mid)
             ocase = dict(case, step=step, op=label)
+            ctx.require("save changes no other state and no dictionary the caller passed to a constructor",
+                        R.bystanders(sid) == others_before, ocase)
             # ---- oracle: purity
             ctx.require("save leaves the metadata object unchanged (same object, deep-equal content)",
                         (md is None) or (R.mds[mid] is md and deep_eq(md, md_before)), ocase,
                         {"before": repr(md_before)[:200], "after": repr(md)[:200]})
+            ctx.require(PURITY_DEEP,
+                        (md is None) or fingerprint(md) == fp_before, ocase, describe_change(fp_before, fingerprint(md)))
             ctx.require("save leaves the state's parameters and unitary dictionary unchanged",
                         deep_eq(snapshot(s)["nets"], before_params["nets"]) and deep_eq(snapshot(s)["ud"], before_params["ud"]), ocase)
             reserved = set(s.networks) | ({"unitary_dict"} if hasattr(s, "unitary_dict") else set())
@@ -510,14 +699,17 @@ def one_history(ctx, hid, nops):
                 ctx.require("save with admissible metadata is accepted (raised %s)" % type(exc).__name__, exc is None, ocase, repr(exc))
                 if exc is None:
                     d = torch.load(R.path(fid))
-                    okf = all(k in d and deep_eq(d[k], v) for k, v in (md or {}).items())
-                    okf = okf and all(n in d and deep_eq(dict(d[n]), dict(getattr(s, n).state_dict())) for n in s.networks)
+                    okm = all(k in d and deep_eq(d[k], v) for k, v in (md_eff or {}).items())
+                    if md_eff is not md:
+                        ctx.require("a ModelSaver with a metadata function stores what the function returns for (state, current epoch)",
+                                    okm, ocase, {"expected": repr(md_eff)[:200], "file": repr({k: d[k] for k in d if k in md_eff})[:200]})
+                    okf = okm and all(n in d and deep_eq(dict(d[n]), dict(getattr(s, n).state_dict())) for n in s.networks)
                     if hasattr(s, "unitary_dict"):
                         okf = okf and "unitary_dict" in d and deep_eq(d["unitary_dict"], s.unitary_dict)
                     ctx.require("the written file holds every metadata key/value, every network's state dict and unitary_dict", okf, ocase)
                     if fid in saved and saved[fid][2] == (sid, mid) and saved[fid][3] == step - 1:
                         ctx.count("save_again_same_objects")
-                    saved[fid] = (snapshot(s), copy.deepcopy(md), (sid, mid), step, bool(md) or hasattr(s, "unitary_dict"))
+                    saved[fid] = (snapshot(s), value_copy(md), (sid, mid), step, bool(md) or hasattr(s, "unitary_dict"))
             if exc is not None and fid in saved and R.norm_file(fid) != file_before:
                 saved.pop(fid, None)
         elif r < 0.63:                                      # ModelSaver(metadata_only=True)
@@ -537,6 +729,7 @@ def one_history(ctx, hid, nops):
                 if comp and rng.random() < 0.7:
                     sid = int(rng.choice(comp))
                     s = R.states[sid]
+            others_before = R.bystanders(sid)
             try:
                 form = str(rng.choice(["str", "Path", "file"], p=[0.6, 0.2, 0.2]))
                 if form == "str":
@@ -551,6 +744,12 @@ def one_history(ctx, hid, nops):
             op = [5, sid, fid]
             malformed = True
             label = "load(%d,f%d)" % (sid, fid)
+            if exc is None:
+                others_after = R.bystanders(sid)
+                ocase = dict(case, step=step, op=label)
+                ctx.require("a load changes no other state of the history", others_after[0] == others_before[0], ocase,
+                            {"changed states": [i for i in others_before[0] if others_after[0].get(i) != others_before[0][i]]})
+                ctx.require("a load leaves the dictionaries the caller passed to constructors unchanged", others_after[1] == others_before[1], ocase)
             if fid in saved and compatible(saved[fid][0], s):
                 ocase = dict(case, step=step, op=label)
                 ctx.require("load into a compatible state is accepted (raised %s)" % type(exc).__name__, exc is None, ocase, repr(exc))
@@ -565,6 +764,7 @@ def one_history(ctx, hid, nops):
             if fid in saved and rng.random() < 0.7:
                 kind = KIND[saved[fid][0]["cls"]]
             new = None
+            others_before = R.bystanders(None)
             try:
                 loc = R.path(fid) if rng.random() < 0.7 else pathlib.Path(R.path(fid))
                 new = CLS[kind].autoload(loc, gpu=False)
@@ -573,6 +773,9 @@ def one_history(ctx, hid, nops):
             op = [6, kind, fid, next_sid]
             malformed = True
             label = "autoload(%s,f%d)->%d" % (CLS[kind].__name__, fid, next_sid)
+            if exc is None:
+                ctx.require("autoload changes no existing state and no dictionary the caller passed to a constructor",
+                            R.bystanders(None) == others_before, dict(case, step=step, op=label))
             if fid in saved and KIND[saved[fid][0]["cls"]] == kind:
                 ocase = dict(case, step=step, op=label)
                 ctx.require("autoload of a file saved by the same state type is accepted (raised %s)" % type(exc).__name__, exc is None, ocase, repr(exc))
@@ -587,11 +790,25 @@ def one_history(ctx, hid, nops):
                 next_sid += 1
         else:                                               # the caller mutates a metadata dict
             mid = int(rng.integers(0, 3))
-            k = str(rng.choice(md_keys, p=[0.2, 0.2, 0.1, 0.1, 0.15, 0.1, 0.15]))
-            v = md_value(ctx, reserved=k in ("rbm_am", "rbm_ph", "unitary_dict"))
-            R.mds[mid][k] = v
+            deep = [k_ for k_, v_ in R.mds[mid].items() if isinstance(v_, (dict, list))
+                    or (isinstance(v_, torch.Tensor) and v_.is_floating_point() and v_.numel() > 0 and not v_.requires_grad)]
+            if deep and rng.random() < 0.4:                 # the caller edits a value IN PLACE, below the top level
+                k = str(rng.choice(sorted(deep)))
+                v = R.mds[mid][k]
+                if isinstance(v, torch.Tensor):
+                    v.add_(1.0)
+                elif isinstance(v, dict):
+                    v[str(rng.choice(["lr", "inner", "new"]))] = md_value(ctx)
+                else:
+                    v.append(int(rng.integers(0, 9)))
+                ctx.count("metadata edited in place below the top level:" + type(v).__name__)
+                label = "md%d[%s] edited in place (%s)" % (mid, k, type(v).__name__)
+            else:
+                k = str(rng.choice(md_keys, p=[0.2, 0.2, 0.1, 0.1, 0.15, 0.1, 0.15]))
+                v = md_value(ctx, reserved=k in ("rbm_am", "rbm_ph", "unitary_dict"))
+                R.mds[mid][k] = v
+                label = "md%d[%s]=..." % (mid, k)
             op = [7, mid, T.key(k), T.tok(v)]
-            label = "md%d[%s]=..." % (mid, k)
         if op is not None:
             emit(op, label, exc, touched, malformed)
     # ---- correspondence with the model, step by step (result compared only as "raises" vs "does not raise")
@@ -643,7 +860,7 @@ def fixed_histories(ctx):
         s = cls(*args, gpu=False)
         randomise_inplace(ctx, s)
         md = {"a": 1, "t": torch.tensor([1.0, 2.0])}
-        md0 = copy.deepcopy(md)
+        md0 = value_copy(md)
         p = os.path.join(ctx.scratch, "fixed_" + cls.__name__)
         case = {"history": ["save(md!={})", "save(same md)"], "state": cls.__name__, "state_has_unitary_dict": hasattr(s, "unitary_dict")}
         ok1, _ = ctx.call("first save", case, s.save, p, md)
@@ -665,10 +882,12 @@ def replace_histories(ctx):
     import torch
     from qucumber.nn_states import ComplexWaveFunction, DensityMatrix, PositiveWaveFunction
     from qucumber.rbm import BinaryRBM, PurificationRBM
-    hows = ["reinitialize_parameters", "rbm.initialize_parameters", "assign nn.Parameter", "assign new network"]
+    hows = ["reinitialize_parameters", "rbm.initialize_parameters", "assign nn.Parameter", "assign new network",
+            # ... or keep their identity and are rewritten IN PLACE (seed round 3: every legal way of changing a model between two saves)
+            "p.data.copy_(new)", "p.data = new", "p.copy_(new) under no_grad", "rbm.load_state_dict", "short fit", "state.load(another file)"]
     for cls, args in ((PositiveWaveFunction, (3, 2)), (ComplexWaveFunction, (2, 3)), (DensityMatrix, (2, 3, 1))):
         for how in hows:
-            for same_file in (True, False):
+            for same_file in ((True, False) if how in hows[:5] else (True,)):
                 ctx.torch_seed()
                 s = cls(*args, gpu=False)
                 randomise_inplace(ctx, s)
@@ -689,13 +908,39 @@ def replace_histories(ctx):
                 elif how == "assign nn.Parameter":
                     for n_, p_ in list(rbm.named_parameters()):
                         setattr(rbm, n_, torch.nn.Parameter(torch.tensor(ctx.rng.normal(size=tuple(p_.shape)) + 0.2), requires_grad=False))
+                elif how in ("p.data.copy_(new)", "p.data = new", "p.copy_(new) under no_grad", "rbm.load_state_dict"):
+                    fresh = {n_: torch.tensor(ctx.rng.normal(size=tuple(p_.shape)) + 0.2, dtype=torch.double) for n_, p_ in rbm.named_parameters()}
+                    if how == "rbm.load_state_dict":
+                        rbm.load_state_dict(fresh)
+                    for n_, p_ in rbm.named_parameters():
+                        if how == "p.data.copy_(new)":
+                            p_.data.copy_(fresh[n_])
+                        elif how == "p.data = new":
+                            p_.data = fresh[n_]
+                        elif how.startswith("p.copy_"):
+                            with torch.no_grad():
+                                p_.copy_(fresh[n_])
+                elif how == "short fit":
+                    nv_ = int(s.num_visible)
+                    kw_ = {} if cls is PositiveWaveFunction else {"input_bases": np.array([["Z"] * nv_] * 2 + [["X"] + ["Z"] * (nv_ - 1)] * 2)}
+                    okf, _ = ctx.call("fit", case, lambda: s.fit(torch.tensor(ctx.rng.integers(0, 2, size=(4, nv_)), dtype=torch.double),
+                                                                 epochs=2, pos_batch_size=2, lr=0.2, **kw_))
+                    if not okf:
+                        continue
+                elif how == "state.load(another file)":
+                    other = cls(*args, gpu=False)
+                    randomise_inplace(ctx, other)
+                    p3 = os.path.join(ctx.scratch, "rep3_" + cls.__name__)
+                    okf, _ = ctx.call("load of another state's file", case, lambda: (other.save(p3), s.load(p3)))
+                    if not okf:
+                        continue
                 else:
                     new_rbm = (BinaryRBM(args[0], args[1], gpu=False) if cls is not DensityMatrix else PurificationRBM(*args, gpu=False))
                     for _, p_ in new_rbm.named_parameters():
                         p_.data.add_(torch.tensor(ctx.rng.normal(size=tuple(p_.shape)) * 0.3 + 0.1))
                     setattr(s, net, new_rbm)
                 snap2 = snapshot(s)                      # what the model holds at the LATER save
-                ok, _ = ctx.call("second save after the parameter objects were replaced", case, s.save, p2, md)
+                ok, _ = ctx.call("second save after the parameters were replaced / rewritten", case, s.save, p2, md)
                 if not ok:
                     continue
                 d = torch.load(p2)
@@ -804,9 +1049,225 @@ def unitary_dict_histories(ctx):
                 ctx.traces += 1
 
 
+def shared_and_inplace_histories(ctx):
+    """Red-team round 2, always executed:
+    (a) two states built from ONE dictionary object share the unitary tensors; a load into one of them changes neither
+        the other state nor the caller's dictionary, and the other state still saves / reloads as it was;
+    (b) save -> a unitary is edited IN PLACE (same tensor object) -> save -> load / autoload: the later file holds the
+        dictionary as it is at the later save;
+    (c) a long-lived ModelSaver with dict metadata that the caller updates in place BELOW the top level between the
+        periodic saves: each file holds the metadata as it is at that save;
+    (d) a ModelSaver with a metadata FUNCTION of (nn_state, epoch), through a real fit: the file of epoch e holds the
+        metadata of epoch e."""
+    import torch
+    from qucumber.nn_states import ComplexWaveFunction, DensityMatrix, PositiveWaveFunction
+    from qucumber.callbacks import ModelSaver
+    from qucumber.utils import unitaries
+    udclone = lambda d: {k: v.clone() for k, v in d.items()}
+    for cls, args in ((ComplexWaveFunction, (2, 3)), (DensityMatrix, (2, 3, 1))):
+        # ---- (a)
+        for receiver_saved_first in (False, True):
+            ctx.torch_seed()
+            ud = unitaries.create_dict()
+            ud["H"] = rand_unitary(ctx)
+            a = cls(*args, unitary_dict=ud, gpu=False)
+            b = cls(*args, unitary_dict=ud, gpu=False)
+            src = cls(*args, gpu=False)
+            for x in (a, b, src):
+                randomise_inplace(ctx, x)
+            src.unitary_dict["X"] = rand_unitary(ctx)           # same names, other matrices
+            src.unitary_dict["H"] = rand_unitary(ctx)
+            p = os.path.join(ctx.scratch, "sh_%s" % cls.__name__)
+            pb = p + "_b"
+            case = {"history": ["a, b = State(unitary_dict=ud), State(unitary_dict=ud)"] + (["b.save"] if receiver_saved_first else []) +
+                               ["src.save", "a.load", "b.save", "autoload(b's file)"], "state": cls.__name__}
+            ctx.case(case, nontrivial=True)
+            if receiver_saved_first:
+                ctx.call("save of the second state", case, b.save, pb, {"k": 0})
+            ok, _ = ctx.call("save", case, src.save, p, {"k": 1})
+            if not ok:
+                continue
+            snap_b, ud_before = snapshot(b), udclone(ud)
+            ok, _ = ctx.call("load into one of two states built from the same dictionary object", case, a.load, p)
+            if ok:
+                check_loaded(ctx, "load", snapshot(src), a, case, True)
+                ctx.require("a load changes no other state of the history", deep_eq(snapshot(b)["ud"], snap_b["ud"]) and deep_eq(snapshot(b)["nets"], snap_b["nets"]), case,
+                            {"other state's dictionary before": repr(snap_b["ud"])[:150], "after": repr(snapshot(b)["ud"])[:150]})
+                ctx.require("a load leaves the dictionaries the caller passed to constructors unchanged", deep_eq(udclone(ud), ud_before), case)
+            ok, _ = ctx.call("save of the other state", case, b.save, pb, {"k": 2})
+            ok, n = ctx.call("autoload of the other state's file", case, lambda: cls.autoload(pb, gpu=False)) if ok else (False, None)
+            if ok:
+                check_loaded(ctx, "autoload of the state that was NOT loaded into", snap_b, n, case, True)
+            ctx.count("fixed_shared_dictionary_load")
+            ctx.traces += 1
+        # ---- (b)
+        for how in ("copy_", "index assignment"):
+            for same_file in (True, False):
+                ctx.torch_seed()
+                s = cls(*args, gpu=False)
+                randomise_inplace(ctx, s)
+                s.unitary_dict["H"] = rand_unitary(ctx)
+                md = {"k": 1}
+                p1 = os.path.join(ctx.scratch, "inpl1_%s" % cls.__name__)
+                p2 = p1 if same_file else os.path.join(ctx.scratch, "inpl2_%s" % cls.__name__)
+                case = {"history": ["save", "unitary edited in place (%s)" % how, "save(same state, same metadata)", "load", "autoload"],
+                        "state": cls.__name__, "same_file": same_file}
+                ctx.case(case, nontrivial=True)
+                ok, _ = ctx.call("first save", case, s.save, p1, md)
+                if not ok:
+                    continue
+                for name in ("Y", "H"):
+                    if how == "copy_":
+                        s.unitary_dict[name].copy_(rand_unitary(ctx))
+                    else:
+                        s.unitary_dict[name][0, 0, 1] = 0.25
+                        s.unitary_dict[name][1, 1, 0] = -0.5
+                snap2 = snapshot(s)
+                ok, _ = ctx.call("second save after the in-place edit", case, s.save, p2, md)
+                if not ok:
+                    continue
+                d = torch.load(p2)
+                ctx.require("the file written by the later save holds the unitary dictionary the state had at that save",
+                            "unitary_dict" in d and deep_eq(d["unitary_dict"], snap2["ud"]), case)
+                t = cls(*args, gpu=False)
+                ok, _ = ctx.call("load of the later file", case, t.load, p2)
+                if ok:
+                    check_loaded(ctx, "load (after in-place edit + save)", snap2, t, case, True)
+                ok, n = ctx.call("autoload of the later file", case, lambda: cls.autoload(p2, gpu=False))
+                if ok:
+                    check_loaded(ctx, "autoload (after in-place edit + save)", snap2, n, case, True)
+                ctx.count("fixed_unitary_inplace:" + how)
+                ctx.traces += 1
+    for cls, args in ((PositiveWaveFunction, (3, 2)), (ComplexWaveFunction, (2, 3)), (DensityMatrix, (2, 3, 1))):
+        ctx.torch_seed()
+        s = cls(*args, gpu=False)
+        randomise_inplace(ctx, s)
+        # ---- (c)
+        for form in ("dict", "callable"):
+            md = {"cfg": {"lr": 0.1, "sched": [1]}, "seen": [], "best": torch.zeros(2, dtype=torch.double), "n": 0}
+            folder = os.path.join(ctx.scratch, "deep_%s_%s" % (cls.__name__, form))
+            ms = ModelSaver(period=1, folder_path=folder, file_name="e{}", save_initial=False,
+                            metadata=md if form == "dict" else (lambda nn, ep, _m=md: _m))
+            case = {"history": ["ModelSaver(metadata=md)"] + ["md edited in place below the top level", "periodic save"] * 3,
+                    "state": cls.__name__, "metadata_form": form}
+            ctx.case(case, nontrivial=True)
+            bad = []
+            for ep in (1, 2, 3):
+                md["cfg"]["lr"] = 0.1 / ep
+                md["cfg"]["sched"].append(ep)
+                md["seen"].append(ep)
+                md["best"].copy_(torch.tensor([float(ep), -1.0], dtype=torch.double))
+                want, fp = value_copy(md), fingerprint(md)
+                ok, _ = ctx.call("periodic save", case, ms.on_epoch_end, s, ep)
+                ctx.require(PURITY_DEEP, fingerprint(md) == fp, case, describe_change(fp, fingerprint(md)))
+                if ok:
+                    d = torch.load(os.path.join(folder, "e%d" % ep))
+                    bad += [(ep, k) for k, v in want.items() if k not in d or not deep_eq(d[k], v)]
+                    ctx.require("save leaves the metadata object unchanged (same object, deep-equal content)", deep_eq(md, want), case)
+            ctx.require("a periodic save stores the caller's metadata as it is at save time (updates below the top level included)",
+                        not bad, case, {"(epoch, key) stale or missing in the file": bad})
+            ctx.count("fixed_metadata_inplace_below_top_level")
+        # ---- (d)
+        md = {"run": "r1", "cfg": {"lr": 0.5}}
+        folder = os.path.join(ctx.scratch, "fn_%s" % cls.__name__)
+        calls = []
+
+        def fn(nn, ep, _m=md):
+            calls.append(ep)
+            return {**_m, "epoch": ep, "nv": int(nn.num_visible)}
+        ms = ModelSaver(period=1, folder_path=folder, file_name="e{}", save_initial=True, metadata=fn)
+        nv = int(s.num_visible)
+        data = torch.tensor(ctx.rng.integers(0, 2, size=(4, nv)), dtype=torch.double)
+        kw = dict(pos_batch_size=2, k=1, lr=0.05, callbacks=[ms])
+        if cls is not PositiveWaveFunction:
+            kw["input_bases"] = np.array([["Z"] * nv] * 2 + [["X"] + ["Z"] * (nv - 1)] * 2)
+        case = {"history": ["fit(epochs=4, starting_epoch=2, callbacks=[ModelSaver(metadata=function of (nn_state, epoch))])", "ModelSaver.on_epoch_end(state, 7)"],
+                "state": cls.__name__}
+        ctx.case(case, nontrivial=True)
+        ok, _ = ctx.call("fit with a ModelSaver whose metadata is a function", case, lambda: s.fit(data, epochs=4, starting_epoch=2, **kw))
+        ok2, _ = ctx.call("periodic save called directly", case, ms.on_epoch_end, s, 7) if ok else (False, None)
+        if ok and ok2:
+            got = {}
+            for e in ("initial", 2, 3, 4, 7):
+                fp = os.path.join(folder, "e%s" % e)
+                got[e] = torch.load(fp) if os.path.exists(fp) else None
+            bad = [e for e in (2, 3, 4, 7) if got[e] is None or got[e].get("epoch") != e or got[e].get("nv") != nv
+                   or not all(k in got[e] and deep_eq(got[e][k], v) for k, v in md.items())]
+            ctx.require("a ModelSaver with a metadata function stores what the function returns for (state, current epoch)", not bad, case,
+                        {"files with other metadata": bad, "epoch stored": {str(e): (None if got[e] is None else got[e].get("epoch")) for e in got}})
+            ini = got["initial"]
+            ctx.require("the initial file holds the metadata the function returned for it", ini is not None and bool(calls) and ini.get("epoch") == calls[0]
+                        and ini.get("nv") == nv and all(k in ini and deep_eq(ini[k], v) for k, v in md.items()), case)
+        ctx.count("fixed_metadata_function_of_epoch")
+        ctx.traces += 1
+
+
+PURITY_DEEP = ("save leaves the metadata object unchanged below the top level too (nested containers and tensors are the same "
+               "objects, with the same types, values and requires_grad flags)")
+
+
+def nested_live_metadata_histories(ctx):
+    """Seed round 3, always executed: metadata nested 2-3 levels deep holding tensors with requires_grad, non-leaf tensors,
+    Python numbers / strings / None, saved twice directly, by a long-lived ModelSaver with the dict and with a metadata
+    function; the caller's object is fingerprinted (identity-aware) before and after every save; the file is read back
+    and compared by value; load / autoload reproduce the parameters."""
+    import torch
+    from qucumber.nn_states import ComplexWaveFunction, DensityMatrix, PositiveWaveFunction
+    from qucumber.callbacks import ModelSaver
+    for cls, args in ((PositiveWaveFunction, (3, 2)), (ComplexWaveFunction, (2, 3)), (DensityMatrix, (2, 3, 1))):
+        ctx.torch_seed()
+        s = cls(*args, gpu=False)
+        randomise_inplace(ctx, s)
+        for via in ("save", "ModelSaver(metadata=dict)", "ModelSaver(metadata=function)"):
+            md = {"tag": "annealed", "run": live_metadata(ctx.rng),
+                  "history": [{"epoch": 1, "KL": torch.tensor([0.5, 0.4])}, (2, {"x": [torch.tensor(1.0, requires_grad=True)]})]}
+            fp, want = fingerprint(md), value_copy(md)
+            folder = os.path.join(ctx.scratch, "live_%s_%d" % (cls.__name__, len(via)))
+            os.makedirs(folder, exist_ok=True)
+            case = {"history": ["%s with nested metadata holding tensors with requires_grad / non-leaf tensors" % via, "the same again"],
+                    "state": cls.__name__, "via": via}
+            ctx.case(case, nontrivial=True)
+            if via == "save":
+                calls = [lambda e=e: s.save(os.path.join(folder, "e%d" % e), md) for e in (1, 2)]
+            else:
+                ms = ModelSaver(period=1, folder_path=folder, file_name="e{}", save_initial=False,
+                                metadata=md if via.endswith("dict)") else (lambda nn, ep, _m=md: _m))
+                calls = [lambda e=e: ms.on_epoch_end(s, e) for e in (1, 2)]
+            snap = snapshot(s)
+            for e, fcall in zip((1, 2), calls):
+                ok, _ = ctx.call("save with nested metadata holding live tensors", case, fcall)
+                now = fingerprint(md)
+                ctx.require(PURITY_DEEP, now == fp, dict(case, save_number=e), describe_change(fp, now))
+                if not ok:
+                    break
+                d = torch.load(os.path.join(folder, "e%d" % e))
+                bad = [k for k, v in want.items() if k not in d or not deep_eq(d[k], v)]
+                ctx.require("the written file holds every metadata key/value (nested values compared by value)", not bad, dict(case, save_number=e),
+                            {"stale, changed or missing": bad})
+                ctx.require("save leaves the state's parameters and unitary dictionary unchanged",
+                            deep_eq(snapshot(s)["nets"], snap["nets"]) and deep_eq(snapshot(s)["ud"], snap["ud"]), case)
+            else:
+                ok, a = ctx.call("autoload of that file", case, lambda: cls.autoload(os.path.join(folder, "e2"), gpu=False))
+                if ok:
+                    check_loaded(ctx, "autoload", snap, a, case, True)
+            ctx.count("fixed_nested_live_metadata:" + via)
+            ctx.traces += 1
+        # NumPy values: not loadable by the installed torch.load, hence outside the quantifier -> information only
+        md = {"cfg": {"a": np.float64(1.5), "arr": np.arange(3.0), "n": [np.int64(3), 2]}}
+        fp = fingerprint(md)
+        try:
+            s.save(io.BytesIO(), md)
+            res = "left the caller's object unchanged" if fingerprint(md) == fp else "rewrote the caller's object"
+        except Exception as e:
+            res = "raised " + type(e).__name__
+        ctx.count("info:numpy values nested in metadata (not loadable by torch.load): save " + res)
+
+
 def run(ctx):
     trust_check(ctx)
     fixed_histories(ctx)
+    nested_live_metadata_histories(ctx)
+    shared_and_inplace_histories(ctx)
     replace_histories(ctx)
     metadata_value_histories(ctx)
     unitary_dict_histories(ctx)
